@@ -31,6 +31,11 @@
 (*   Distinct : different ids, same component => different values            *)
 (*   Tree     : the real compact store accepts a channel's own secrets in    *)
 (*              order and gives each of them back                            *)
+(*   Node     : node-level and wallet keys (node id, bolt12 / persistence    *)
+(*              keys, onion secret, wallet account xpub, wallet addresses,   *)
+(*              LDK shutdown script, heartbeat key) are the documented       *)
+(*              functions NodeKey(style, seed, net, which): one value per    *)
+(*              NAME, whoever shows it (reference term, any node, any time)  *)
 (***************************************************************************)
 EXTENDS Naturals, Integers, Sequences, FiniteSets, TLC
 
